@@ -267,7 +267,10 @@ PROPS = {
     "C08": dict(
         coq="Properties/C08.v",
         suites=[dict(name="send", pkg="./client/", test="TestVerifSend", min_lines=500),
-                e2e_suite("ooo,faults", ["logged_sent_before_all_bytes_acknowledged", "part_counted_as_held_not_on_record"], n=12)],
+                e2e_suite("ooo,faults", ["logged_sent_before_all_bytes_acknowledged", "part_counted_as_held_not_on_record"], n=12),
+                dict(name="track", pkg="./client/", test="TestVerifTrack", min_lines=200,
+                     oracles=["logged_sent_before_all_bytes_acknowledged", "polled_before_all_bytes_acknowledged"], diffs=["tracker-logged", "tracker-handed"],
+                     env_quick={"VERIF_N": 300}, env_thorough={"VERIF_N": 10000})],
         rule=("send: the real startSend / handleSendError / payload.Bin.Split / Remove against a scripted network: exhaustively every failure position of every "
               "payload of 1..5 parts x {partial-content answer with count k, error without count + recovery request answering k after 0..2 failed recovery "
               "requests}, plus seeded scripts of up to 4 consecutive failures on payloads of 1..7 parts with files changing between attempts; the parts of "
